@@ -57,7 +57,15 @@ for fn, mhex in jobs:
         if not isinstance(r, bytes):
             out.append({"exc": "result is %s, not bytes" % type(r).__name__})
         else:
-            out.append({"d": bytes(r).hex()})
+            # the same byte string held in Python's other byte-string type (a digest is a function of the bytes)
+            try:
+                r2 = F[fn](bytearray.fromhex(mhex))
+            except Exception as e2:
+                r2 = "given as bytearray: " + type(e2).__name__
+            if r2 != r:
+                out.append({"exc": r2 if isinstance(r2, str) else "given as bytearray: another digest"})
+            else:
+                out.append({"d": bytes(r).hex()})
     except Exception as e:
         out.append({"exc": type(e).__name__ + ": " + str(e)[:80]})
 impl = getattr(H.ripemd160, "__name__", type(H.ripemd160).__name__)
